@@ -75,6 +75,7 @@ const batchersPkg = "rare/pkg/extractor/batchers"
 
 func runC01(c *Ctx, r *Report) {
 	c01Counters(c, r)
+	c01ClassConditions(c, r, "C01-a/class-condition")
 	c01BatcherLoops(c, r, "C01-b")
 	c01Worker(c, r, "C01-c")
 	units := allBodies(c)
